@@ -24,11 +24,13 @@ def make_record(m, a, b, html):
     """Returns a law record or None when the pair is outside the property's domain."""
     if not a.endswith('\n'):
         a += '\n'
-    da = parse(m, a, html)
-    if not da.children or da.children[-1].__class__.__name__ not in CLOSED or da.footnotes:
-        return None
+    # B is parsed first and A + blank + B last: if parsing A leaves anything behind (that would be C11's subject), the
+    # combined parse sees it while B's own parse did not, so the law cannot hold by both sides being wrong alike
     db = parse(m, b, html)
     if db.footnotes:
+        return None
+    da = parse(m, a, html)
+    if not da.children or da.children[-1].__class__.__name__ not in CLOSED or da.footnotes:
         return None
     dab = parse(m, a + '\n' + b, html)
     return {'law': 'concat', 'a': proj.blocks(da), 'b': proj.blocks(db), 'ab': proj.blocks(dab),
